@@ -429,15 +429,15 @@ func (api *DatabaseAPI) registerSub(opID []byte, q *query.Query) (sub *database.
 		return nil, false
 	}
 
-	return sub, true
-}
-
-func (api *DatabaseAPI) processSub(opID []byte, sub *database.Subscription) {
-	// Save subscription.
+	// Save subscription, so that it can be cancelled from now on.
 	api.subsLock.Lock()
 	api.subs[string(opID)] = sub
 	api.subsLock.Unlock()
 
+	return sub, true
+}
+
+func (api *DatabaseAPI) processSub(opID []byte, sub *database.Subscription) {
 	// Remove subscription after it ended.
 	defer func() {
 		api.subsLock.Lock()
@@ -507,6 +507,11 @@ func (api *DatabaseAPI) handleQsub(opID []byte, queryText string) {
 	}
 	ok = api.processQuery(opID, q)
 	if !ok {
+		// The operation ended with the query: end the subscription, too.
+		_ = sub.Cancel()
+		api.subsLock.Lock()
+		delete(api.subs, string(opID))
+		api.subsLock.Unlock()
 		return
 	}
 	api.processSub(opID, sub)
